@@ -383,15 +383,15 @@ theorem vtF_gap (g : Gap) : (tks (gapToks g)).filterMap vtF = [] := by
   | nil => rfl
   | cons p g ih => cases p <;> simpa [gapToks, GapPiece.tok, tks, tk, vtF] using ih
 
+theorem vtF_colonTail (qs : List Str) :
+    ((tks (colonTail qs)).filterMap vtF).flatten = (qs.map fun q => ':' :: q).flatten := by
+  induction qs with
+  | nil => rfl
+  | cons q qs ih => simp [tk, vtF, ih]
+
 theorem vtF_ver (v : VersionA) : ((tks v.toks).filterMap vtF).flatten = v.str := by
-  have key : ∀ qs : List Str, ((tks (colonTail qs)).filterMap vtF).flatten
-      = (qs.map fun q => ':' :: q).flatten := by
-    intro qs
-    induction qs with
-    | nil => rfl
-    | cons q qs ih => simp [tk, vtF, ih]
   rw [VersionA.str_eq]
-  simp [VersionA.toks, tk, vtF, key]
+  simp [VersionA.toks, tk, vtF, vtF_colonTail]
 
 theorem versionText_ver (v : VerPart) : versionText v.node = v.ver.str := by
   simp only [VerPart.node, versionText_node, List.filterMap_cons, List.filterMap_append, vtF_gap]
